@@ -488,6 +488,9 @@ class DeepCopyMethod(MethodDescriptor):
         new = self.__class__.__new__(self.__class__)
         for attr, value in self.__dict__.items():
             if inspect.ismethod(value) and value.__self__ is self:
+                # Copying would recurse into `self`: the copy holds the same
+                # method, bound to itself.
+                new.__dict__[attr] = value.__func__.__get__(new, type(new))
                 continue
             if attr == "__spec_class_initializing__":
                 continue  # A copy taken during `__post_init__` is not itself being initialised.
